@@ -28,12 +28,35 @@ fn verify_tok(r: Result<(), omaha_client::cup_ecdsa::CupVerificationError>) -> S
     match r { Ok(()) => "ok".into(), Err(e) => format!("err:{}", err_name(&e)) }
 }
 
-pub struct ServerCfg { pub resp: Vec<(String, &'static str, OmahaResponse, bool, Option<String>, Option<String>, String, String)>,
-    pub latest: (u64, usize), pub hist: Vec<(u64, usize)>, pub etag_override: Option<String>, pub require_cup: bool }
+pub type RespEntry = (String, &'static str, OmahaResponse, bool, Option<String>, Option<String>, String, String);
+
+pub struct ServerCfg { pub resp: Vec<RespEntry>,
+    pub latest: (u64, usize), pub hist: Vec<(u64, usize)>, pub etag_override: Option<String>, pub require_cup: bool,
+    /// when set: the server starts out with these responses and is then reconfigured to `resp` through its own
+    /// `/set_responses_by_appid` handler before the case's request is sent
+    pub prev: Option<Vec<RespEntry>> }
+
+fn resp_tok(resp: &[RespEntry]) -> String {
+    if resp.is_empty() { "-".into() } else { resp.iter().map(|(id, kt, _, ad, ver, coh, cb, pkg)| format!("{}~{}~{}~{}~{}~{}~{}", hexb(id.as_bytes()), kt, *ad as u8, opt_hex(ver), opt_hex(coh), hexb(cb.as_bytes()), hexb(pkg.as_bytes()))).collect::<Vec<_>>().join(";") }
+}
 
 impl ServerCfg {
     pub fn build(&self) -> OmahaServer {
-        let map: HashMap<String, ResponseAndMetadata> = self.resp.iter().map(|(id, _, k, ad, ver, coh, cb, pkg)| (id.clone(), ResponseAndMetadata {
+        let Some(prev) = &self.prev else { return self.build_with(&self.resp); };
+        // start with the previous configuration, then reconfigure over the server's own handler
+        let server = tokio::sync::Mutex::new(self.build_with(prev));
+        let kind_name = |k: &OmahaResponse| match k { OmahaResponse::NoUpdate => "NoUpdate", OmahaResponse::Update => "Update", OmahaResponse::UrgentUpdate => "UrgentUpdate",
+            OmahaResponse::InvalidResponse => "InvalidResponse", OmahaResponse::InvalidURL => "InvalidURL" };
+        let body: serde_json::Map<String, serde_json::Value> = self.resp.iter().map(|(id, _, k, ad, ver, coh, cb, pkg)| (id.clone(), serde_json::json!({
+            "response": kind_name(k), "check_assertion": if *ad { "UpdatesDisabled" } else { "UpdatesEnabled" }, "version": ver, "cohort_assertion": coh,
+            "codebase": cb, "package_name": pkg }))).collect();
+        let req = hyper::Request::builder().method("POST").uri("/set_responses_by_appid").body(hyper::Body::from(serde_json::to_vec(&body).unwrap())).unwrap();
+        let r = block_on(mock_omaha_server::handle_request(req, &server)).expect("set_responses");
+        assert_eq!(r.status(), http::StatusCode::OK);
+        server.into_inner()
+    }
+    fn build_with(&self, resp: &[RespEntry]) -> OmahaServer {
+        let map: HashMap<String, ResponseAndMetadata> = resp.iter().map(|(id, _, k, ad, ver, coh, cb, pkg)| (id.clone(), ResponseAndMetadata {
             response: *k, check_assertion: if *ad { UpdateCheckAssertion::UpdatesDisabled } else { UpdateCheckAssertion::UpdatesEnabled },
             version: ver.clone(), cohort_assertion: coh.clone(), codebase: cb.clone(), package_name: pkg.clone() })).collect();
         OmahaServerBuilder::default().responses_by_appid(map)
@@ -42,8 +65,8 @@ impl ServerCfg {
             .etag_override(self.etag_override.clone()).require_cup(self.require_cup).build().unwrap()
     }
     pub fn tok(&self) -> String {
-        format!("resp={} latest={}/{} hist={} override={} reqcup={}",
-            if self.resp.is_empty() { "-".into() } else { self.resp.iter().map(|(id, kt, _, ad, ver, coh, cb, pkg)| format!("{}~{}~{}~{}~{}~{}~{}", hexb(id.as_bytes()), kt, *ad as u8, opt_hex(ver), opt_hex(coh), hexb(cb.as_bytes()), hexb(pkg.as_bytes()))).collect::<Vec<_>>().join(";") },
+        format!("resp={}{} latest={}/{} hist={} override={} reqcup={}",
+            resp_tok(&self.resp), self.prev.as_ref().map(|p| format!(" prev={}", resp_tok(p))).unwrap_or_default(),
             self.latest.0, self.latest.1, if self.hist.is_empty() { "-".into() } else { self.hist.iter().map(|(i, k)| format!("{}/{}", i, k)).collect::<Vec<_>>().join(",") },
             opt_hex(&self.etag_override), self.require_cup as u8)
     }
@@ -59,7 +82,16 @@ pub fn gen_server(rng: &mut Rng, ids: &[String], versions: &[String]) -> ServerC
     }
     let kid = *rng.pick(&[1u64, 42, 7, u64::MAX]);
     let hist: Vec<(u64, usize)> = (0..rng.below(3)).map(|j| (*rng.pick(&[2u64, 42, 7, 100 + j]), rng.below(4) as usize)).collect();
-    ServerCfg { resp, latest: (kid, rng.below(4) as usize), hist, etag_override: if rng.chance(1, 8) { Some(rng.pick(&["abc:def", "W/\"00:11\"", "\""]).to_string()) } else { None }, require_cup: rng.chance(1, 10) }
+    // a third of the servers reach their configuration through a reconfiguration: the same ids (one possibly missing, one
+    // possibly extra) with other decisions, flipped updates-disabled assertions, other version / cohort assertions
+    let prev = if rng.chance(1, 3) {
+        let mut p: Vec<RespEntry> = resp.iter().map(|r| { let (kt, k) = *rng.pick(KIND);
+            (r.0.clone(), kt, k, !r.3 || rng.chance(1, 2), if rng.chance(1, 2) { Some("7.7.7.7".to_string()) } else { None }, if rng.chance(1, 2) { Some("old-cohort".to_string()) } else { None }, "http://old/".to_string(), "oldpkg".to_string()) }).collect();
+        if rng.chance(1, 4) { p.pop(); }
+        if rng.chance(1, 4) { p.push(("gone-app".into(), "update", OmahaResponse::Update, true, None, None, "c".into(), "p".into())); }
+        Some(p)
+    } else { None };
+    ServerCfg { resp, latest: (kid, rng.below(4) as usize), hist, etag_override: if rng.chance(1, 8) { Some(rng.pick(&["abc:def", "W/\"00:11\"", "\""]).to_string()) } else { None }, require_cup: rng.chance(1, 10), prev }
 }
 
 pub fn run(o: &Opts, rng: &mut Rng) -> Sink {
